@@ -96,6 +96,8 @@ FILES = {
                             unit='U-colorfns', functions=['color.mix (complete closure body, extracted range)']),
     'colorfns_other.rs': dict(module='sass::functions::color::other::kani_verif', src='rsass/src/sass/functions/color/other.rs',
                               unit='U-colorfns', functions=['color.opacify / fade-in, transparentize / fade-out (complete closure bodies, extracted ranges)']),
+    'cssstring.rs': dict(module='css::string::kani_verif', src='rsass/src/css/string.rs',
+                         unit='U-escape', functions=['CssString::unquote (digit accumulation of an escape; extracted range)']),
     'comment.rs': dict(module='css::comment::kani_verif', src='rsass/src/css/comment.rs',
                        unit='U-comment', functions=['Comment::write']),
 }
@@ -107,7 +109,7 @@ BOUNDED_FILES = {
     'ordermap.rs': 'maps of at most 3 entries; key type u8 with == modulo 4',
     'opt.rs': 'sequences of at most 4 items, payload type u8',
     'value.rs': 'one representative payload per non-recursive constructor (no nested Value)',
-    'comment.rs': 'comment text of bounded length',
+    'comment.rs': 'three concrete comment texts (single line, multi-line indented deeper than its block), two styles',
     'transformfns.rs': 'eight representative condition values; @while: at most 3 iterations',
     'scopefns.rs': 'at most three variables and two-element list values; six representative condition values',
     'formalargs.rs': 'eleven concrete call shapes (at most 2 parameters + rest, at most 3 arguments)',
@@ -142,7 +144,7 @@ OVERRIDES = [
     (r'^c29_(ceil|floor|round)_keeps_unit', dict(bounded='three probe values (2.5, -2.5, 7); the primitives are complete in number.rs')),
     (r'^c29_unitless_', dict(bounded='four concrete units (none, %, fr, px), one harness each', functions=['math::unitless (argument check of pow / sqrt / log / exp)'])),
     (r'^c29_min_max_', dict(bounded='three / two concrete arguments (90px, 1in, 95px; 2, 3; 1px, 1s)')),
-    (r'^c36_', dict(bounded=None, functions=['output::transform::handle_item (Item::Comment arm; extracted range)'])),
+    (r'^c36_(expanded|compressed)_', dict(bounded=None, functions=['output::transform::handle_item (Item::Comment arm; extracted range)'])),
     (r'^c16_assignment_updates', dict(functions=['Scope::set_variable (flag logic after the module case; extracted range)'], bounded=None)),
     (r'^c17_for_end_unit', dict(functions=['sass::SrcRange::evaluate (unit conversion of the end value, extracted range)'],
                                 bounded='seven concrete (value, unit, unit) triples')),
@@ -180,6 +182,7 @@ OVERRIDES = [
                                functions=['Operator::eval (and / or arms, extracted ranges)'])),
     (r'^c12_operator_cmp', dict(bounded='unit px only', kind='attempt', tier='thorough', timeout=900)),
     (r'^c29_unitless_rejects_', dict(kind='attempt', tier='thorough', timeout=2400)),  # measured: > 900 s (error path builds the message through core::fmt)
+    (r'^c36_comment_write_compressed_', dict(kind='attempt', tier='thorough', timeout=2400)),  # measured: > 900 s (str::lines / str::replace machinery)
     (r'^c18_named_in_any_order$', dict(kind='attempt', tier='thorough', timeout=2400)),  # measured: runs out of memory (two removals from OrderMap<Name, _>)
     (r'^c11_unitset_scale_to_power_of_unit_is_none$', dict(kind='attempt', tier='thorough', timeout=2400)),  # measured: > 900 s (BTreeMap in UnitSet::dimension)
     (r'^c11_numeric_cmp_', dict(bounded='13 representative ordered unit pairs, probe magnitudes 1 and 3')),
@@ -211,6 +214,7 @@ EXTRA_PROPS = [
     (r'^c12_rgba_|^c12_cmp_chan|^c12_color_', ['C31']),
     (r'^c01_cmp_chan|^c01_color_cmp', ['C12']),
     (r'^c01_get_indent|^c01_cssbuf|^c01_long_indent', ['C07']),
+    (r'^c36_comment_write_compressed', ['C07']),
     (r'^c07_into_buffer_tail', ['C01']),
     (r'^c01_range_new', ['C17']),
     (r'^c31_color_set_alpha|^c31_.*set_alpha', ['C32']),
@@ -238,6 +242,7 @@ FILE_ASSUMPTIONS = {
     'formalargs.rs': [SNIP + 'css::CallArgs is instantiated at a two-variant value type V (bodies of its methods extracted as well, OrderMap real); the sub-scope is a recording binder; '
                       'FormalArgs\' two fields are parameters with the default type instantiated at u8; ArgsError and Invalid are local stand-ins with the constructors the ranges use'],
     'cssdata.rs': [SNIP + 'The (never constructed) error type of the result is ()'],
+    'cssstring.rs': [SNIP + 'Only the accumulation step of CssString::unquote; the character iterator is a probe; checked for every u32 accumulator value (inductive step)'],
     'colorfns.rs': [DEG_MOD, SNIP + 'Argument fetches are replaced by parameters'],
     'colorfns_rgb.rs': [DEG_MOD, SNIP + 'Argument fetches are replaced by parameters (the weight as the fraction the real check lets through)'],
     'colorfns_other.rs': [SNIP + 'Argument fetches are replaced by parameters (the amount as the fraction the real check lets through)'],
